@@ -2,6 +2,9 @@
 
 Monitor: programs of input calls run against the real req.body (E1) and, call by call, against
 io.BytesIO(body); afterwards next(parser) must yield exactly the following pipelined request.
+Also: reads that are interrupted (the source raises, as a socket with a timeout does while an upload stalls) and repeated - the
+pieces the successful calls returned must still be consecutive pieces of the body; bodies announced with Expect: 100-continue
+that the application never touches; both through the parser alone and through real worker loops.
 """
 import io
 import json
@@ -13,7 +16,9 @@ PROP = "C07"
 RULE = ("case = (body layout with newlines around the 1024/2048 block edges, CL or chunked framing with a "
         "chunk layout, segmentation, program of 1..12 calls from read/readline/readlines/next/for with sizes "
         "in {None,-1,0,1,2,7,1023,1024,1025,2048,10**6}, 1-2 following pipelined requests); non-trivial = "
-        "program has >= 2 calls of different kinds or stops before EOF; distinct = sha1 of the case")
+        "program has >= 2 calls of different kinds or stops before EOF; distinct = sha1 of the case; plus interrupted-and-repeated "
+        "read(n) programs over Content-Length bodies (stalls on 1024-byte block boundaries), and worker-level cases: upload stalling "
+        "longer than the application's socket timeout, Expect: 100-continue bodies left untouched, each with a follower")
 
 SIZES = [None, -1, 0, 1, 1, 2, 2, 7, 7, 100, 100, 1023, 1024, 1025, 2047, 2048, 2049, 10 ** 6]
 EDGES = [1023, 1024, 1025, 2047, 2048, 2049, 3071, 3072]
@@ -257,14 +262,340 @@ def make_case(rng):
             "follow": nfollow, "cuts": cuts, "cfg": cfg}
 
 
+# ---- reads that are interrupted and repeated ----------------------------------------------------------------
+#
+# An application may put a timeout on environ["gunicorn.socket"] (or a gevent / eventlet timer around its reads); when the upload stalls,
+# the read raises, and the application may read again.  What the unchanged reader does then was measured first (DESIGN.md, C07): it is
+# exact for Content-Length framing + read(n) when the stall falls on a 1024-byte block boundary of the body (nothing is held in a local
+# variable at that moment); it loses bytes in three other shapes (stall inside a block: LengthReader's local buffer; readline(): the list
+# of gathered parts; chunked: the chunk generator dies and the body "ends").  A call that raises is outside the property's quantifier,
+# so only the exact shape is judged; the other three are run and counted ("interrupted_not_judged/...") so that the gap stays visible.
+
+class Stall(TimeoutError):
+    """What recv() on a socket with a timeout raises while the peer sends nothing."""
+
+
+class StallingSource:
+    """Iterator over byte pieces; an entry None raises Stall once (the next call goes on with the following entry)."""
+
+    def __init__(self, script):
+        self.script = list(script)
+        self.i = 0
+        self.stalls = 0
+
+    def __iter__(self):
+        return self
+
+    def __next__(self):
+        if self.i >= len(self.script):
+            raise StopIteration
+        x = self.script[self.i]
+        self.i += 1
+        if x is None:
+            self.stalls += 1
+            raise Stall("scripted stall")
+        return x
+
+
+INTERRUPT_SIZES = [100, 1023, 1024, 1025, 1500, 2048, 2049, 4096, 5000, 8192, 70000, 10 ** 6, None, -1]
+
+
+def make_interrupted_case(rng, shape="judged"):
+    """shape: judged (CL, read(n), stalls on block boundaries) | misaligned | readline | chunked (the latter three: counted only)."""
+    n = rng.choice([1, 100, 1024, 1025, 2048, 2049, 3000, 4096, 4097, 5000, 9000, 17000])
+    if shape != "judged":
+        n = rng.choice([2049, 3000, 4096, 5000])
+    body = bytes(rng.choice(b"abcdefgh\n") for _ in range(n))
+    nfollow = rng.choice([1, 1, 2])
+    if shape == "chunked":
+        head = b"POST /c07 HTTP/1.1\r\nHost: h\r\nTransfer-Encoding: chunked\r\n\r\n"
+        framed = gen.chunk_encode(rng, body, rng.choice(["one", "many"])) + b"0\r\n\r\n"
+    else:
+        head = b"POST /c07 HTTP/1.1\r\nHost: h\r\nContent-Length: %d\r\n\r\n" % n
+        framed = body
+    stream = head + framed + b"".join(gen.marker(i) for i in range(1, nfollow + 1))
+    if shape in ("judged", "readline"):
+        offs = list(range(0, n, 1024))              # block boundaries of the body (0 = the head has arrived, the body has not)
+    elif shape == "misaligned":
+        offs = [o for o in range(1, n) if o % 1024]
+    else:
+        offs = list(range(1, len(framed) - 5))
+    stalls = sorted(rng.sample(offs, min(len(offs), rng.choice([1, 1, 2, 3]))))
+    cuts = set(len(head) + o for o in stalls)
+    for _ in range(rng.choice([0, 0, 1, 3, 6])):
+        cuts.add(rng.randint(1, len(stream) - 1))  # ordinary read boundaries anywhere, also inside blocks
+    script, prev = [], 0
+    for c in sorted(cuts) + [len(stream)]:
+        if c > prev:
+            for k in range(prev, c, 8192):
+                script.append(c - k if c - k < 8192 else 8192)
+        if c - len(head) in stalls and c < len(stream):
+            script.extend([0] * rng.choice([1, 1, 2, 3]))       # 0 = the source raises Stall (several timeouts in a row)
+        prev = c
+    sizes = [rng.choice(INTERRUPT_SIZES) for _ in range(rng.choice([1, 1, 2, 3]))]
+    return {"kind": "interrupted", "shape": shape, "body": body.hex(), "stream": stream.hex(), "script": script,
+            "sizes": sizes, "op": "readline" if shape == "readline" else "read", "follow": nfollow}
+
+
+def run_interrupted(e1, case):
+    """Returns (verdicts, stalls met by the application's calls). The application repeats a call that raised Stall and reads to EOF."""
+    from gunicorn.http import RequestParser
+    body, stream = bytes.fromhex(case["body"]), bytes.fromhex(case["stream"])
+    script, pos = [], 0
+    for n in case["script"]:
+        script.append(stream[pos:pos + n] if n else None)
+        pos += n
+    src = StallingSource(script)
+    parser = RequestParser(e1.make_cfg(), src, e1.UNTRUSTED_PEER)
+    req = next(parser)
+    model = io.BytesIO(body)
+    met, k, out = 0, 0, []
+    for _ in range(len(body) // 50 + 200):
+        size = case["sizes"][k % len(case["sizes"])]
+        try:
+            if case["op"] == "readline":
+                got = req.body.readline(size) if size is not None else req.body.readline()
+            else:
+                got = req.body.read(size) if size is not None else req.body.read()
+        except Stall:
+            met += 1
+            continue                                # the application tries the same call again
+        want = model.readline(size) if case["op"] == "readline" else model.read(size)
+        k += 1
+        if got != want:
+            out.append(("interrupted-read/input-call-differs", "after %d interrupted call(s) %s(%s) at body offset %d returned %d bytes %r, "
+                        "the body continues with %d bytes %r" % (met, case["op"], size, model.tell() - len(want), len(got), got[:24],
+                                                                 len(want), want[:24])))
+            return out, met
+        if not want:
+            break
+    uris, terminal = [], None
+    while terminal is None:
+        try:
+            r = next(parser)
+            uris.append(r.uri)
+            r.body.read()
+        except StopIteration:
+            terminal = "end"
+        except Exception as e:      # noqa: BLE001
+            terminal = "%s: %s" % (type(e).__name__, str(e)[:80])
+    want_uris = ["/m-%d-k9q" % i for i in range(1, case["follow"] + 1)]
+    if uris != want_uris or terminal != "end":
+        out.append(("interrupted-read/next-request-misparsed", "after %d interrupted call(s) and a body read to its end the connection yielded "
+                    "%s then %s, expected %s then a clean end" % (met, uris, terminal, want_uris)))
+    return out, met
+
+
+def interrupted_cases(run, e1, rng, n):
+    for k in range(n):
+        shape = "judged" if k % 8 else ["misaligned", "readline", "chunked"][(k // 8) % 3]
+        case = make_interrupted_case(rng, shape)
+        if shape != "judged":
+            try:
+                v, met = run_interrupted(e1, case)
+                run.count("interrupted_not_judged/%s/%s" % (shape, "bytes-lost-or-misframed" if v else "exact"))
+            except Exception as e:      # noqa: BLE001
+                run.count("interrupted_not_judged/%s/raised-%s" % (shape, type(e).__name__))
+            continue
+        run.case(common.sha12(case))
+        v, met = run_interrupted(e1, case)
+        run.count("interrupted_read_programs")
+        run.count("interrupted_read_calls_repeated", met)
+        if any(sz is None or sz < 0 or sz > 1024 for sz in case["sizes"]) and met:
+            run.count("interrupted_while_gathering_several_blocks")
+        for mech, summary in v:
+            run.violation(mech, summary + " | body_len=%d sizes=%s script=%s" % (len(case["body"]) // 2, case["sizes"], case["script"][:12]), case)
+
+
+# ---- worker level: stalled uploads, Expect: 100-continue left untouched --------------------------------------------------
+
+class _StallApp:
+    """Reads the whole body with read(n) under a timeout it puts on gunicorn.socket; a call that times out is repeated."""
+
+    def __init__(self, sizes, timeout):
+        self.sizes, self.timeout, self.calls = sizes, timeout, []
+
+    def __call__(self, environ, start_response):
+        import socket
+        rec = {"uri": environ["RAW_URI"], "body": b"", "timeouts": 0, "reads": []}
+        self.calls.append(rec)
+        sock = environ["gunicorn.socket"]
+        old = sock.gettimeout()
+        sock.settimeout(self.timeout)
+        inp, k = environ["wsgi.input"], 0
+        try:
+            while rec["timeouts"] < 60:
+                try:
+                    d = inp.read(self.sizes[k % len(self.sizes)])
+                except socket.timeout:
+                    rec["timeouts"] += 1
+                    continue
+                k += 1
+                if not d:
+                    break
+                rec["body"] += d
+        finally:
+            sock.settimeout(old)
+        start_response("200 OK", [("Content-Length", "2")])
+        return [b"ok"]
+
+
+class _UntouchedApp:
+    """Answers without reading (mode 'none': wsgi.input is not touched at all; 'zero': read(0); 'some': read(3))."""
+
+    def __init__(self, mode):
+        self.mode, self.calls = mode, []
+
+    def __call__(self, environ, start_response):
+        rec = {"uri": environ["RAW_URI"], "body": b""}
+        self.calls.append(rec)
+        if len(self.calls) == 1:
+            if self.mode == "zero":
+                rec["body"] = environ["wsgi.input"].read(0)
+            elif self.mode == "some":
+                rec["body"] = environ["wsgi.input"].read(3)
+        else:
+            rec["body"] = environ["wsgi.input"].read()
+        start_response("200 OK", [("Content-Length", "2")])
+        return [b"ok"]
+
+
+def final_responses(data):
+    """Number of final (non-1xx) responses with a 2-byte body in what the client received; None if the bytes are something else."""
+    n, pos = 0, 0
+    while pos < len(data):
+        e = data.find(b"\r\n\r\n", pos)
+        if e < 0:
+            return None
+        status = data[pos:e].split(b"\r\n")[0]
+        if status.startswith(b"HTTP/1.1 100"):
+            pos = e + 4
+            continue
+        if not status.startswith(b"HTTP/1.1 200") or data[e + 4:e + 6] != b"ok":
+            return None
+        n += 1
+        pos = e + 6
+    return n
+
+
+def run_worker_case(e2, harn, case):
+    """One worker-level case; returns (verdicts, calls, info)."""
+    kind = case["worker"]
+    stream, body = bytes.fromhex(case["stream"]), bytes.fromhex(case["body"])
+    app = _StallApp(case["sizes"], case["app_timeout"]) if case["class"] == "stalled-upload" else _UntouchedApp(case["app_mode"])
+    out = harn.connection(stream, app, mode="halfclose", segments=case["segments"], segment_delay=case["delay"], timeout=8.0)
+    calls, v = app.calls, []
+    if out["hung"]:
+        return None, calls, out
+    keeps = kind != "sync"
+    want_uris = ["/c07w"] + (["/m-1-k9q"] if keeps else [])
+    uris = [c["uri"] for c in calls]
+    nresp = final_responses(out["received"])
+    if case["class"] == "stalled-upload":
+        got = calls[0]["body"] if calls else None
+        if got != body:
+            v.append(("worker/interrupted-read-body-differs", "%s worker: the upload stalled at body offset %s for %.2fs, the application's reads "
+                      "(read sizes %s, socket timeout %.2fs, %s timed out and were repeated) returned %s bytes in all, the body has %d%s" % (
+                          kind, case["stall_at"], case["delay"], case["sizes"], case["app_timeout"], calls[0]["timeouts"] if calls else "-",
+                          None if got is None else len(got), len(body),
+                          "" if got is None or len(got) != len(body) else " (same length, other bytes)")))
+        elif uris != want_uris or nresp != len(want_uris):
+            v.append(("worker/follower-of-interrupted-upload-misparsed", "%s worker: after an upload whose reads were interrupted %d time(s) the "
+                      "application was called for %s and the client got %s complete responses, expected %s" % (
+                          kind, calls[0]["timeouts"], uris, nresp, want_uris)))
+    else:
+        if uris != want_uris or nresp != len(want_uris) or any(c["body"] for c in calls[1:]):
+            v.append(("worker/next-request-misparsed/body-left-untouched", "%s worker: POST with %s and a %d-byte %s body the application does not "
+                      "read (%s), then GET /m-1-k9q: the application was called for %s (bodies %s), the client got %s final responses; expected %s" % (
+                          kind, "Expect: 100-continue" if case["expect"] else "no Expect", len(body), case["framing"], case["app_mode"], uris,
+                          [len(c["body"]) for c in calls], nresp, want_uris)))
+    return v, calls, out
+
+
+def make_worker_case(rng, k):
+    kind = ["gthread", "async", "sync"][k % 3]
+    if k % 5 in (0, 3):
+        # an upload that stalls in mid-body for longer than the timeout the application put on its socket
+        n = rng.choice([2048, 3000, 4096, 5000, 9000])
+        body = bytes(rng.choice(b"abcdefgh\n") for _ in range(n))
+        if rng.random() < 0.3:
+            fake = b"\r\nGET /inside-the-body HTTP/1.1\r\nHost: x\r\n\r\n"
+            body = body[:n - 1024 + 3] + fake + body[n - 1024 + 3 + len(fake):]
+        head = b"POST /c07w HTTP/1.1\r\nHost: h\r\nContent-Length: %d\r\n\r\n" % n
+        stall = rng.choice(range(0, n, 1024))                   # a block boundary of the body: see the note above
+        stream = head + body + gen.marker(1)
+        a = len(head) + stall
+        return {"origin": "workers2", "class": "stalled-upload", "worker": kind, "stream": stream.hex(), "body": body.hex(), "stall_at": stall,
+                "segments": [a, len(stream) - a], "delay": 0.45, "app_timeout": 0.12,
+                "sizes": [rng.choice([100, 1024, 1500, 2048, 4096, 5000, 70000]) for _ in range(rng.choice([1, 1, 2]))]}
+    kind = ["gthread", "async"][k % 2]
+    body = rng.choice([b"GET /smuggled HTTP/1.1\r\nHost: evil\r\n\r\n", b"hello", bytes(rng.choice(b"abc\n") for _ in range(rng.choice([1, 300, 3000])))])
+    expect = rng.random() < 0.75
+    hdrs = b"Host: h\r\n" + (rng.choice([b"Expect: 100-continue\r\n", b"Expect: 100-Continue\r\n", b"expect: 100-continue\r\n"]) if expect else b"")
+    if rng.random() < 0.6:
+        framing, head, framed = "Content-Length", b"POST /c07w HTTP/1.1\r\n" + hdrs + b"Content-Length: %d\r\n\r\n" % len(body), body
+    else:
+        framing, head = "chunked", b"POST /c07w HTTP/1.1\r\n" + hdrs + b"Transfer-Encoding: chunked\r\n\r\n"
+        framed = gen.chunk_encode(rng, body, rng.choice(["one", "many"])) + b"0\r\n\r\n"
+    stream = head + framed + gen.marker(1)
+    where = rng.choice(["together", "body-later", "follower-later", "both-later"])
+    segs = {"together": [len(stream)], "body-later": [len(head), len(stream) - len(head)],
+            "follower-later": [len(head) + len(framed), len(stream) - len(head) - len(framed)],
+            "both-later": [len(head), len(framed), len(stream) - len(head) - len(framed)]}[where]
+    return {"origin": "workers2", "class": "untouched-body", "worker": kind, "stream": stream.hex(), "body": body.hex(), "expect": expect,
+            "framing": framing, "segments": segs, "delay": rng.choice([0.01, 0.03, 0.1]), "app_mode": rng.choice(["none", "none", "zero", "some"])}
+
+
+WORKER_CFG = {"gthread": {"keepalive": 2, "threads": 2}, "async": {"keepalive": 2}, "sync": {"keepalive": 2}}
+
+
+def worker_extra(run, sh):
+    from vlib import e2_worker as e2
+    rng = rng_for(sh["seed"], "c07-workers2", sh["sub"])
+    harn = {k: e2.Harness(k, WORKER_CFG[k]) for k in WORKER_CFG}
+    try:
+        for k in range(sh["n2"]):
+            if run.enough():
+                break
+            case = make_worker_case(rng, k + sh["sub"])
+            kind = case["worker"]
+            v, calls, out = run_worker_case(e2, harn[kind], case)
+            run.case(common.sha12(case))
+            if v is None:
+                run.count("worker_connection_hung")
+                harn[kind].close()
+                harn[kind] = e2.Harness(kind, WORKER_CFG[kind])
+                continue
+            if case["class"] == "stalled-upload":
+                run.count("worker_stalled_uploads")
+                if calls and calls[0]["timeouts"]:
+                    run.count("worker_reads_interrupted_and_repeated", calls[0]["timeouts"])
+                    if kind != "sync":
+                        run.count("worker_follower_after_interrupted_upload")
+            else:
+                run.count("worker_untouched_bodies")
+                if case["expect"]:
+                    run.count("worker_untouched_bodies_with_expect_100")
+            for mech, summary in v:
+                run.violation(mech, summary + " | segments=%s stream=%s" % (case["segments"], hexs(bytes.fromhex(case["stream"])[:160])), case)
+    finally:
+        for h in harn.values():
+            h.close()
+    return run
+
+
 def shard(sh):
     from vlib import e1_wire as e1
     run = Run(PROP, sh.get("tier", "quick"), sh["seed"], "exploration", RULE)
     if sh.get("kind") == "workers":
         # the same reads through real worker loops: keep-alive connections whose bytes arrive with pauses (engine E2)
         from checks import c01
-        return c01.worker_shard(run, sh, label="c07-workers", varied_reads=True)
+        c01.worker_shard(run, sh, label="c07-workers", varied_reads=True)
+        if sh.get("n2"):
+            worker_extra(run, sh)
+        return run
     rng = rng_for(sh["seed"], "c07", sh["sub"])
+    interrupted_cases(run, e1, rng_for(sh["seed"], "c07-interrupted", sh["sub"]), sh.get("ni", 0))
     for k in range(sh["n"]):
         if run.enough():
             break
@@ -287,14 +618,23 @@ def main(tier, seed):
     run = Run(PROP, tier, seed, "exploration", RULE)
     run.require("programs_completed", "stopped_before_eof", "consumed_to_eof", "followed_by_pipelined_request",
                 "framing/cl", "framing/chunked", "non_default_header_limits", "malformed_trailer_cases", "cut_chunked_bodies", "worker_connections",
-                "worker_later_call_with_body")
+                "worker_later_call_with_body", "interrupted_read_programs", "interrupted_read_calls_repeated",
+                "interrupted_while_gathering_several_blocks", "worker_stalled_uploads", "worker_reads_interrupted_and_repeated",
+                "worker_follower_after_interrupted_upload", "worker_untouched_bodies", "worker_untouched_bodies_with_expect_100")
     q = tier == "quick"
     per = 4000 if q else 40000
-    shards = [{"kind": "workers", "n": 120 if q else 2500, "sub": s, "seed": seed, "tier": tier} for s in range(8 if q else 16)]
-    shards += [{"n": per, "sub": s, "seed": seed, "tier": tier} for s in range(48 if q else 128)]
+    shards = [{"kind": "workers", "n": 120 if q else 2500, "n2": 20 if q else 300, "sub": s, "seed": seed, "tier": tier}
+              for s in range(8 if q else 16)]
+    shards += [{"n": per, "ni": 160 if q else 1600, "sub": s, "seed": seed, "tier": tier} for s in range(48 if q else 128)]
     run.assumptions = [
         "oracle = io.BytesIO(body) call by call; readlines(hint) may return more whole lines than the hint asks (PEP 3333)",
         "sizes are ints or None; non-int sizes are outside the property",
+        "reads interrupted by an exception (a timeout the application put on gunicorn.socket while the upload stalls) and repeated are judged "
+        "only in the shape in which the unchanged reader is exact: Content-Length framing, read(n), the stall falling on a 1024-byte block "
+        "boundary of the body; a call that raises is outside the property's quantifier, so the three shapes in which the unchanged reader "
+        "loses bytes (stall inside a block, readline(), chunked framing) are run and counted as interrupted_not_judged/*, not judged",
+        "worker-level follower checks (stalled upload, Expect: 100-continue body left untouched) use keep-alive loops (gthread, base_async); "
+        "the sync worker closes after one response and is judged for the body only",
     ]
     common.run_sharded(run, shards, timeout=900 if q else 7200)
     return run.finish()
@@ -306,7 +646,17 @@ def replay(path):
         rec = json.load(f)
     run = Run(PROP, "quick", 0, "exploration", RULE)
     case = rec["case"]
-    if case.get("origin") == "workers":
+    if case.get("kind") == "interrupted":
+        v, met = run_interrupted(e1, case)
+        print("calls interrupted and repeated: %d" % met)
+    elif case.get("origin") == "workers2":
+        from vlib import e2_worker as e2
+        h = e2.Harness(case["worker"], WORKER_CFG[case["worker"]])
+        v, calls, out = run_worker_case(e2, h, case)
+        h.close()
+        print("calls:", [(c["uri"], len(c["body"]), c.get("timeouts")) for c in calls], "received:", out["received"][:200])
+        v = v or []
+    elif case.get("origin") == "workers":
         from checks import c01
         from vlib import e2_worker as e2, ref_http
         kind, stream = case["worker"], bytes.fromhex(case["stream"])
